@@ -3,7 +3,8 @@ from ..ir import AnalysisBroken, strip_targs, qmatch
 from ..graph import Graph
 from ..expr import access_path, path_str, reaching_defs, norm_cond, origins, leaves, defs_in_node
 from ..linear import linear, relation, fmt, rel_str
-from .common import strip_casts, short, comparison
+from .common import strip_casts, short, comparison, same_class_inline, subtree_through_locals, loops_over
+from ..symb import feasible_reach
 
 UNITS = ['sdk/src/metrics/state/filtered_ordered_attribute_map.cc', 'sdk/src/metrics/state/sync_metric_storage.cc',
          'sdk/src/metrics/state/temporal_metric_storage.cc']
@@ -43,8 +44,8 @@ def rule_r1(ck, prog, rule='C08.R1'):
     ck.verdict(ok, rule, _R(r), 'ordered-map-base', None, 'derives from std::map (sorted by key)' if ok else
                'the attribute-set type no longer derives from the sorted std::map: iteration order, hence hash and equality, depend on insertion order')
     f = prog.function('sdk::common::GetHashForAttributeMap')
-    loops = [n for n in f.nodes if n['k'] == 'forrange']
-    ok = len(loops) >= 1 and strip_casts(f, loops[0]['range']).get('id') == f.params[0]['id']
+    loops = loops_over(f, lambda ap: ap == ('param:' + f.params[0]['name'],))
+    ok = len(loops) >= 1
     if ok:
         body = [f.nodes[i] for i in f.subtree(loops[0]['body'])]
         mem = {n['name'] for n in body if n['k'] == 'member' and n['name'] in ('first', 'second')}
@@ -215,15 +216,39 @@ def rule_r3(ck, prog, rule='C08.R3', classes=('sdk::metrics::SyncMetricStorage',
     return cnt
 
 
+def _overflow_guards(prog, cls):
+    """the overflow predicate of the table, found by what it does: a parameterless bool member whose result relates the number of
+    stored series to the configured limit"""
+    rec = prog.record(cls)
+    limit = [fd['name'] for fd in rec['fields'] if fd['t'].replace('const ', '') in ('size_t', 'unsigned long', 'std::size_t')]
+    out = []
+    for f in sorted([x for x in prog.funcs.values() if x.cls == rec['qn'] and not x.params and x.blocks], key=lambda x: x.key):
+        if (f.d.get('ret') or '').replace('const ', '') != 'bool':
+            continue
+        g = Graph(prog, f, inline=None, sync_lambdas=False)
+        rets = g.returns()
+        if len(rets) != 1 or rets[0].n.get('e') is None:
+            continue
+        rd = reaching_defs(g)
+        rel = relation(g, rd, f, rets[0].n['e'], g.root_ctx, True)
+        if not rel or not rel[1]:
+            continue
+        terms = {t for (t, c) in rel[1]}
+        if any(t.endswith('.size()') for t in terms) and any(t == 'this.' + l for t in terms for l in limit):
+            out.append((f, g, rets[0], rel))
+    return out
+
+
 def rule_r4(ck, prog, rule='C08.R4', cls='sdk::metrics::AttributesHashMapWithCustomHash'):
-    f = prog.function(cls + '::IsOverflowAttributes')
-    g = Graph(prog, f, inline=None, sync_lambdas=False)
-    rd = reaching_defs(g)
-    rets = g.returns()
-    rel = relation(g, rd, f, rets[0].n['e'], g.root_ctx, True) if rets else None
-    want = ('>=0', frozenset({('this.hash_map_.size()', 1), ('1', 1), ('this.attributes_limit_', -1)}))
-    ck.verdict(rel == want, rule, f, 'overflow-guard', rets[0].n if rets else None,
-               'overflow <=> ' + rel_str(rel) if rel == want else 'overflow guard is %s, expected size+1 >= limit (one slot is reserved for the overflow series)' % rel_str(rel))
+    guards = _overflow_guards(prog, cls)
+    if not guards:
+        raise AnalysisBroken('%s: no overflow predicate (bool member relating the table size to the limit) found' % cls)
+    guard_keys = {gd[0].key for gd in guards}
+    for (f, g, ret, rel) in guards:
+        limit = [t for (t, c) in rel[1] if t.startswith('this.') and not t.endswith('()')]
+        want = ('>=0', frozenset({('this.hash_map_.size()', 1), ('1', 1), (limit[0] if limit else '?', -1)}))
+        ck.verdict(rel == want, rule, f, 'overflow-guard', ret.n,
+                   'overflow <=> ' + rel_str(rel) if rel == want else 'overflow guard is %s, expected size+1 >= limit (one slot is reserved for the overflow series)' % rel_str(rel))
     cnt = 0
     for gf in sorted(prog.functions(cls + '::GetOrSetDefault'), key=lambda x: x.line):
         cnt += 1
@@ -231,7 +256,7 @@ def rule_r4(ck, prog, rule='C08.R4', cls='sdk::metrics::AttributesHashMapWithCus
         rd = reaching_defs(g)
         site = 'GetOrSetDefault@%d' % gf.line if False else 'GetOrSetDefault(%s)' % gf.params[0]['t'].rsplit('::', 1)[-1][:28]
         finds = g.calls('std::unordered_map::find')
-        ofl = g.calls(cls + '::IsOverflowAttributes')
+        ofl = [p for p in g.points if p.n is not None and p.n['k'] == 'call' and p.n.get('ck') in guard_keys]
         ins = [p for p in g.points if p.n is not None and p.n['k'] == 'call' and p.n.get('obj') is not None and
                access_path(gf, p.n['obj'], p.ctx) == ('this', 'hash_map_') and
                strip_targs(p.n.get('c', '')).rsplit('::', 1)[-1] in ('emplace', 'operator[]', 'insert', 'try_emplace', 'insert_or_assign')]
@@ -262,23 +287,34 @@ def rule_r4(ck, prog, rule='C08.R4', cls='sdk::metrics::AttributesHashMapWithCus
                         return False
                     core, pol = norm_cond(lab[1], lab[0])
                     cn = lab[1].nodes[core]
-                    if cn['k'] == 'call' and qmatch(cn.get('c', ''), cls + '::IsOverflowAttributes'):
+                    if cn['k'] == 'call' and cn.get('ck') in guard_keys:
                         return (lab[2] if pol else not lab[2]) is False
                     return False
                 ok = all(g.must_pass_edge(p, not_overflow) for p in ins)
                 why = 'an insertion of a new series is not behind the not-overflow edge: the table can grow past its limit'
         ck.verdict(ok, rule, gf, site, (ofl or finds or [None])[0].n if (ofl or finds) else None,
                    'lookup miss -> overflow test -> insertion' if ok else why)
-    for of in prog.functions(cls + '::GetOrSetOveflowAttributes'):
-        if not of.params[0]['t'].startswith('std::unique_ptr'):
+    # the overflow series itself: wherever a member inserts under the overflow key with a call that keeps an existing entry, or
+    # creates it, the key has been looked up first (otherwise earlier overflow contributions are replaced / a second one is made)
+    rec = prog.record(cls)
+    n_ofl = 0
+    for of in sorted([x for x in prog.funcs.values() if x.cls == rec['qn'] and x.blocks], key=lambda x: x.key):
+        def keyed(n):
+            return n.get('args') and any(of.nodes[j]['k'] == 'ref' and of.nodes[j].get('name') == 'kOverflowAttributes' for j in of.subtree(n['args'][0]))
+        ins_nodes = [n for n in of.nodes if n['k'] == 'call' and strip_targs(n.get('c', '')).rsplit('::', 1)[-1] in NON_OVERWRITING and
+                     'unordered_map' in strip_targs(n.get('c', '')) and keyed(n)]
+        if not ins_nodes:
             continue
+        n_ofl += 1
         g = Graph(prog, of, inline=None, sync_lambdas=False)
-        finds = g.calls('std::unordered_map::find')
-        ins = g.calls('std::unordered_map::emplace')
-        keys = [n for n in of.nodes if n['k'] == 'ref' and n['name'] == 'kOverflowAttributes']
-        ok = bool(finds) and bool(ins) and len(keys) >= 2 and all(g.must_pass(p, finds) for p in ins)
-        ck.verdict(ok, rule, of, 'overflow-series-lookup-then-insert', None, 'overflow key looked up before it is inserted' if ok else
+        finds = [p for p in g.points if p.n is not None and p.n['k'] == 'call' and 'unordered_map' in strip_targs(p.n.get('c', '')) and
+                 strip_targs(p.n.get('c', '')).rsplit('::', 1)[-1] in ('find', 'count', 'contains') and keyed(p.n)]
+        ins = [g.point_of[(id(g.root_ctx), n['i'])] for n in ins_nodes if (id(g.root_ctx), n['i']) in g.point_of]
+        ok = bool(finds) and bool(ins) and all(g.must_pass(p, finds) for p in ins)
+        ck.verdict(ok, rule, of, 'overflow-series-lookup-then-insert', ins_nodes[0], 'overflow key looked up before it is inserted' if ok else
                    'the overflow series is inserted without looking it up first (or not under the overflow key): earlier overflow contributions are replaced')
+    if not n_ofl:
+        raise AnalysisBroken('%s: no member inserts the overflow series' % cls)
     return cnt
 
 
@@ -346,7 +382,7 @@ def rule_r6(ck, prog, rule='C08.R6', cls='sdk::metrics::FilteredOrderedAttribute
     r = prog.record(cls)
     cnt = 0
     for f in [x for x in prog.funcs.values() if x.cls == r['qn'] and x.kind == 'ctor' and any(p['name'] == 'processor' for p in x.params)]:
-        g = Graph(prog, f, inline=None, sync_lambdas=True)
+        g = Graph(prog, f, inline=same_class_inline(prog, r['qn']), sync_lambdas=True)
         sets = g.calls('OrderedAttributeMap::SetAttribute')
         cnt += 1
         site = 'filter-gates-insert(%s)' % f.params[0]['t'].rsplit('::', 1)[-1][:24]
@@ -354,28 +390,35 @@ def rule_r6(ck, prog, rule='C08.R6', cls='sdk::metrics::FilteredOrderedAttribute
             ck.violation(rule, f, site, None, 'the filtering constructor never inserts')
             continue
 
-        def allowed(a, b, lab):
-            if not lab or not isinstance(lab[0], int):
-                return False
-            core, pol = norm_cond(lab[1], lab[0])
-            cn = lab[1].nodes[core]
-            truth = lab[2] if pol else (not lab[2])
-            if cn['k'] == 'call' and strip_targs(cn.get('c', '')).endswith('AttributesProcessor::isPresent'):
-                return truth is True
-            if cn['k'] == 'ref' and cn['name'] == 'processor':
-                return truth is False
-            return False
-        ok = all(g.must_pass_edge(p, allowed) for p in sets)
-        ck.verdict(ok, rule, f, site, sets[0].n, 'insertion behind "no processor or key allowed"' if ok else
-                   'an attribute can be inserted without the view\'s filter having allowed its key')
+        # decision table: pin "the processor is non-null" and "isPresent(key) returned ..." in the constructor, its callbacks and the
+        # helpers it calls; an insertion must be unreachable exactly when there is a processor and it rejected the key
+        def pins_for(nonnull, present):
+            pins = {}
+            for c in g.ctxs:
+                for n in c.f.nodes:
+                    if n['k'] == 'call' and strip_targs(n.get('c', '')).endswith('AttributesProcessor::isPresent'):
+                        pins[(id(c.f), n['i'])] = present
+                    elif n['k'] == 'ref' and 'AttributesProcessor' in (n.get('t') or '') and (n.get('t') or '').rstrip().endswith('*'):
+                        pins[(id(c.f), n['i'])] = nonnull
+            return pins
+        table = {}
+        for nonnull in (True, False):
+            for present in (True, False):
+                table[(nonnull, present)] = feasible_reach(g, [g.entry], sets, pins=pins_for(nonnull, present)) is not None
+        ok = (not table[(True, False)]) and table[(True, True)]
+        ck.verdict(ok, rule, f, site, sets[0].n, 'insertion behind "no processor or key allowed" (decision table over processor!=null / isPresent: %s)' %
+                   ', '.join('%s/%s:%s' % ('proc' if a else 'null', 'present' if b else 'absent', 'insert' if v else 'skip') for (a, b), v in sorted(table.items())) if ok else
+                   ('an attribute can be inserted although there is a processor and it rejected the key' if table[(True, False)] else
+                    'no attribute is inserted even when the processor allows its key'))
     # key lookups of the filter use the full view
     for f in prog.functions('sdk::metrics::FilteringAttributesProcessor::isPresent') + prog.functions('sdk::metrics::FilteringAttributesProcessor::process'):
         hosts = [f] + [x for x in prog.funcs.values() if x.d.get('lambda') and x.d.get('parent') == f.key]
         for h in hosts:
             for n in h.nodes:
-                if n['k'] == 'call' and strip_targs(n.get('c', '')).rsplit('::', 1)[-1] == 'find' and n.get('args'):
+                if n['k'] == 'call' and strip_targs(n.get('c', '')).rsplit('::', 1)[-1] in ('find', 'count', 'contains', 'equal_range') and n.get('args') and \
+                        n.get('obj') is not None and access_path(h, n['obj'])[:1] == ('this',):
                     cnt += 1
-                    sub = [h.nodes[i] for i in h.subtree(n['args'][0])]
+                    sub = [h.nodes[i] for i in subtree_through_locals(h, n['args'][0])]
                     data_calls = [x for x in sub if x['k'] == 'call' and strip_targs(x.get('c', '')).endswith('string_view::data')]
                     sized = [x for x in sub if x['k'] == 'call' and strip_targs(x.get('c', '')).endswith(('string_view::size', 'string_view::length'))]
                     conv = [x for x in sub if x['k'] in ('call', 'construct') and 'basic_string' in strip_targs(x.get('c', ''))]
